@@ -297,7 +297,50 @@ def run_case(args):
     return res
 
 
+SEGS = ["google", "cloud", "foo", "bar", "v1", "v1beta1", "v2", "v1p1beta1", "foo_v1", "types", "a", "admin", "x9", "v10alpha"]
+
+
+def run_imports(ctx):
+    """T2: metadata.Address.python_import / in_api_package / subpackage against Model/Imports.v."""
+    r = env.rng("C01-imports", 0)
+    cases = []
+    for i in range(ctx.n(60, 400)):
+        api = [r.choice(SEGS) for _ in range(r.randint(1, 4))]
+        ver = api[-1] if re.fullmatch(r"v[0-9]+(p[0-9]+)?((alpha|beta)[0-9]*)?", api[-1]) and len(api) > 1 else ""
+        name = (api[-2] if ver else api[-1])
+        ns = api[:-2] if ver else api[:-1]
+        deps = [[r.choice(SEGS) for _ in range(r.randint(1, 4))] for _ in range(r.randint(0, 3))]
+        addrs = [api, api + [r.choice(SEGS)], api + [r.choice(SEGS), r.choice(SEGS)], api[:-1] + [api[-1] + r.choice(["beta1", "x", "_v1", "1"])],
+                 api[:-1], [r.choice(SEGS) for _ in range(r.randint(1, 4))]] + deps + [d + [r.choice(SEGS)] for d in deps]
+        addrs = [a for a in addrs if a]
+        cases.append({"name": name.capitalize(), "namespace": [x.capitalize() for x in ns], "version": ver, "api_package": ".".join(api),
+                      "ppdeps": [".".join(d) for d in deps[: r.randint(0, len(deps))]],
+                      "addresses": [[".".join(a), r.choice(["common", "resources", "foo", "types"])] for a in addrs]})
+    out = gen.impl("c01_imports", {"cases": cases})
+    checks = []
+    for c, row in zip(cases, out):
+        n = (f"{{| api_pkg := {coq.slist(c['api_package'].split('.'))}; mod_ns := {coq.slist(row['mod_ns'])}; vmod := {coq.s(row['vmod'])}; "
+             f"ppdeps := {coq.lst(coq.slist(d.split('.')) for d in c['ppdeps'])} |}}")
+        for (pkg, mod), got in zip(c["addresses"], row["addresses"]):
+            a = f"{{| a_pkg := {coq.slist(pkg.split('.'))}; a_mod := {coq.s(mod)} |}}"
+            if not got["ok"]:
+                ctx.violation(f"Address.python_import raised {got['error']} for package {pkg!r} under API package {c['api_package']!r} "
+                              f"(proto-plus-deps {c['ppdeps']})", {"imports_case": c, "address": [pkg, mod]}, None)
+                continue
+            kind = "in-api" if got["in_api"] else ("proto-plus-dependency" if got["proto_plus"] else "dependency")
+            ctx.case({"imports": [c["api_package"], pkg, mod, c["ppdeps"]]}, nontrivial=pkg != c["api_package"], feature="import-" + kind + ("-sub" if got["sub"] and got["in_api"] else ""))
+            checks.append((f"python_import of {pkg}/{mod} under API {c['api_package']} deps {c['ppdeps']}: impl {got['package']}, {got['module']}",
+                           f"pair_eqb (list_eqb String.eqb) String.eqb (import_of {n} {a}) ({coq.slist(got['package'])}, {coq.s(got['module'])})"
+                           f" && Bool.eqb (in_api {n} {a}) {'true' if got['in_api'] else 'false'}"
+                           f" && Bool.eqb (is_proto_plus {n} {a}) {'true' if got['proto_plus'] else 'false'}"
+                           + (f" && list_eqb String.eqb (subpackage {n} {a}) {coq.slist(got['sub'])}" if got["in_api"] else "")))
+    failing, errors, nf = coq.eval_checks("c01imports", "From GV Require Import Model.Files Model.Imports.", "", checks)
+    ctx.oblige(f"T2 model = implementation on {len(checks)} evaluations of Address.python_import / in_api_package / subpackage",
+               not failing and not errors, "; ".join((failing + errors)[:6]))
+
+
 def run(ctx):
+    ctx.stage("imports T2", run_imports, ctx)
     napi = ctx.n(8, 72)
     nopt = ctx.n(3, 6)
     jobs = []
